@@ -70,7 +70,32 @@ func checkC09(c *Ctx) {
 	c.Rule("C09.panic", "P2/P3 PANIC PARITY: for every such function with slice inputs, the entry decision lists of the two variants (explicit panics, length comparisons, &s[0] and s[a:] on the inputs, inlined generic helpers, both values of every CPU flag) are evaluated as predicates over all assignments of representative lengths (0,1,2,3 and the constants the variants compare with, +-1); an assignment where one variant certainly panics and the other certainly does not is a violation", 70)
 	c.Rule("C09.fallback", "P4 FALLBACK ARM: a function that branches on a CPU feature flag calls every generic helper that its purego sibling calls (the non-accelerated arm is the portable implementation)", 40)
 
+	c.Rule("C09.flag", "FLAG PARITY: inside one function that branches on a CPU feature flag, the panic behaviour (explicit panics, &s[0], s[a:] on the slice inputs) is the same for every value of the flags on every assignment of representative lengths: the accelerated arm has exactly the preconditions of the portable arm", 40)
 	f1 := topLevelFuncs(p1)
+	{
+		var keys []string
+		for k := range f1 {
+			keys = append(keys, k)
+		}
+		sort.Strings(keys)
+		for _, k := range keys {
+			a := f1[k]
+			if a.Blocks == nil || !readsCPUFlag(a) || len(sliceInputs(a)) == 0 || !libPkg(relPkg(fnPkgPath(a))) {
+				continue
+			}
+			c.Instance("C09.flag", 1)
+			_, diffs := flagParity(p1, a)
+			msg := ""
+			if len(diffs) > 0 {
+				d := diffs
+				if len(d) > 3 {
+					d = append(d[:3], fmt.Sprintf("… %d more length assignments", len(diffs)-3))
+				}
+				msg = fmt.Sprintf("%s: panic behaviour depends on the CPU: %s", k, strings.Join(d, "; "))
+			}
+			c.Ob("C09.flag", relPkg(fnPkgPath(a)), k, "panic-independent-of-cpu-flags", p1.Pos(a.Pos()), len(diffs) == 0, msg)
+		}
+	}
 	for _, px := range progs {
 		fx := topLevelFuncs(px)
 		var keys []string
